@@ -420,7 +420,11 @@ func (r *Reconciler) applyChange(ctx context.Context, transaction *configapi.Tra
 		if ok, err := r.applyValues(ctx, transaction, configuration, values); !ok {
 			return controller.Result{}, false, err
 		} else if err != nil {
+			// The southbound client returns typed errors (errors.FromGRPC), not gRPC statuses
 			code := status.Code(err)
+			if _, ok := err.(*errors.TypedError); ok {
+				code = errors.Status(err).Code()
+			}
 			switch code {
 			case codes.Unavailable, codes.Canceled, codes.DeadlineExceeded:
 				return controller.Result{}, false, err
@@ -775,7 +779,11 @@ func (r *Reconciler) applyRollback(ctx context.Context, transaction *configapi.T
 		if ok, err := r.applyValues(ctx, transaction, configuration, values); !ok {
 			return controller.Result{}, false, err
 		} else if err != nil {
+			// The southbound client returns typed errors (errors.FromGRPC), not gRPC statuses
 			code := status.Code(err)
+			if _, ok := err.(*errors.TypedError); ok {
+				code = errors.Status(err).Code()
+			}
 			switch code {
 			case codes.Unavailable, codes.Canceled, codes.DeadlineExceeded:
 				return controller.Result{}, false, err
